@@ -120,6 +120,13 @@ func verifQuiesce() bool {
 				ok = false
 				break
 			}
+			// a copier goroutine of copyLoop counts as parked only inside a scripted conn
+			// operation (waiting for the script), nowhere else
+			if strings.Contains(stacks[i], "main.copyLoop.func") &&
+				!(s == "chan receive" && strings.Contains(stacks[i], "(*verifConn).park")) {
+				ok = false
+				break
+			}
 		}
 		if ok {
 			return true
